@@ -4,6 +4,7 @@ import (
 	"bytes"
 	"encoding/json"
 	"fmt"
+	"io"
 	"strings"
 
 	smtp "github.com/emersion/go-smtp"
@@ -25,7 +26,8 @@ type c05Case struct {
 	Mode      srvMode `json:"mode"`
 	Refuse    string  `json:"refuse"` // "", nomail, norcpt, badlast, threeargs, overlimit
 	LineLimit int     `json:"line_limit"`
-	Noop      bool    `json:"noop"` // NOOP marker after every chunk
+	Noop      bool    `json:"noop"`    // NOOP marker after every chunk
+	NoLast    string  `json:"no_last"` // "", QUIT, disconnect: no chunk carries LAST; the transfer is ended this way
 }
 
 func init() {
@@ -33,6 +35,8 @@ func init() {
 		return core.ReplayCase(ctx, raw, c05Exec)
 	}})
 }
+
+var errEOFMarker = io.EOF
 
 func lfFreeRun(b []byte) int {
 	best, cur := 0, 0
@@ -135,6 +139,17 @@ func c05Run(ctx *core.Ctx) {
 				}
 			}
 		}
+		// transfers that never get a LAST chunk: EOF must not be reported
+		for mi, msg := range short[:6] {
+			for _, parts := range [][]int{{len(msg)}, {3, len(msg) - 3}, {0, len(msg)}, {len(msg), 0}} {
+				for _, end := range []string{"QUIT", "disconnect"} {
+					for _, seg := range []string{"glued", "split"} {
+						idx++
+						emit(c05Case{Msg: msg, MsgQ: fmt.Sprintf("%.80q", msg), Chunks: parts, Seg: seg, Mode: modes[(idx+mi)%3], NoLast: end})
+					}
+				}
+			}
+		}
 		// refused BDATs with bait payloads
 		for _, refuse := range []string{"nomail", "norcpt", "badlast", "threeargs", "overlimit"} {
 			for _, mode := range modes {
@@ -178,7 +193,7 @@ func c05Exec(ctx *core.Ctx, c c05Case) {
 		ctx.Broken("C05 case: chunk sizes do not add up")
 		return
 	}
-	ctx.Eval(fmt.Sprintf("%q|%v|%v|%s|%v|%s|%s|%d|%v", c.Msg, c.Chunks, c.ExtraLast, c.Seg, c.Cuts, c.Mode, c.Refuse, c.LineLimit, c.Noop),
+	ctx.Eval(fmt.Sprintf("%q|%v|%v|%s|%v|%s|%s|%d|%v", c.Msg, c.Chunks, c.ExtraLast, c.Seg, c.Cuts, c.Mode, c.Refuse, c.LineLimit, c.Noop)+c.NoLast,
 		len(c.Chunks) > 1 || c.ExtraLast || c.Refuse != "" || (len(c.Chunks) == 1 && c.Chunks[0] == 0))
 
 	limitBytes := int64(0)
@@ -249,7 +264,7 @@ func c05Exec(ctx *core.Ctx, c c05Case) {
 	var pieces []piece
 	off := 0
 	for i, n := range c.Chunks {
-		last := i == len(c.Chunks)-1 && !c.ExtraLast
+		last := i == len(c.Chunks)-1 && !c.ExtraLast && c.NoLast == ""
 		cmd := fmt.Sprintf("BDAT %d", n)
 		if last {
 			cmd += " LAST"
@@ -266,11 +281,13 @@ func c05Exec(ctx *core.Ctx, c c05Case) {
 			pieces = append(pieces, piece{marker: "NOOP\r\n"})
 		}
 	}
-	if c.ExtraLast && c.Refuse == "" {
+	if c.ExtraLast && c.Refuse == "" && c.NoLast == "" {
 		pieces = append(pieces, piece{cmd: "BDAT 0 LAST\r\n", last: true})
 	}
 	refused := c.Refuse != ""
-	if refused {
+	if c.NoLast != "" {
+		// no marker: the transfer stays open until it is abandoned
+	} else if refused {
 		pieces = append(pieces, piece{marker: "NOOP\r\n"})
 	} else {
 		pieces = append(pieces, piece{marker: "MAIL FROM:<marker@x.test>\r\n"})
@@ -320,10 +337,15 @@ func c05Exec(ctx *core.Ctx, c c05Case) {
 			}
 		}
 		if rerr == nil {
-			p.SendStr("QUIT\r\n")
-			rs, err := p.ReadAll()
-			tail = append(tail, rs...)
-			rerr = err
+			if c.NoLast == "disconnect" {
+				p.Close()
+				rerr = errEOFMarker
+			} else {
+				p.SendStr("QUIT\r\n")
+				rs, err := p.ReadAll()
+				tail = append(tail, rs...)
+				rerr = err
+			}
 		}
 	} else {
 		var full []byte
@@ -366,6 +388,9 @@ func c05Exec(ctx *core.Ctx, c c05Case) {
 		tail, rerr = p.ReadAll()
 	}
 	fin := finish()
+	if !waitDataEnds(rig.Log) {
+		fin = false
+	}
 	if isWatchdog(rerr) || !fin {
 		ctx.Inconclusive(fmt.Sprintf("C05 watchdog msg=%.60q chunks=%v", c.Msg, c.Chunks))
 		return
@@ -394,6 +419,27 @@ func c05Exec(ctx *core.Ctx, c c05Case) {
 			fail("C05:payload-executed:"+why, fmt.Sprintf("chunk payload was executed as a command: %s(%q)", e.Kind, e.A))
 			return
 		}
+	}
+	if c.NoLast != "" {
+		des := dataEnds(ev)
+		if len(des) > 1 {
+			fail("C05:data-calls", fmt.Sprintf("expected at most one Data call, saw %d", len(des)))
+			return
+		}
+		for _, d := range des {
+			if d.B == "EOF" || d.B == "" {
+				fail("C05:eof-without-last", fmt.Sprintf("no chunk carried LAST (transfer ended by %s) but the backend's reader ended with %q after %d octets", c.NoLast, d.B, len(d.A)))
+				return
+			}
+			if !bytes.HasPrefix(c.Msg, []byte(d.A)) {
+				fail("C05:octets-differ", fmt.Sprintf("backend read %.200q, sent %.200q", d.A, c.Msg))
+				return
+			}
+		}
+		if ctx.WantSample("nolast/" + c.NoLast) {
+			ctx.Sample("nolast/"+c.NoLast, map[string]any{"msg": fmt.Sprintf("%.60q", c.Msg), "chunks": c.Chunks, "ended_by": c.NoLast, "replies": codes(tail)})
+		}
+		return
 	}
 	// expected replies
 	var wantCodes []string
